@@ -163,7 +163,7 @@ func (fc *FieldCase) input() interface{} {
 	switch fc.F.Kind {
 	case KInt, KInt8, KUint16, KPInt, KVInt, KUInt:
 		return uint64(10 + n%80)
-	case KF64, KUFloat:
+	case KF64, KUFloat, KF32:
 		return float64(n) + 0.5
 	case KStr, KPStr, KVStr, KUStr:
 		return "s" + itoa(n)
@@ -266,7 +266,7 @@ func (sc *StructCase) prefill(v reflect.Value) {
 			f.SetInt(5)
 		case KUint16:
 			f.SetUint(5)
-		case KF64:
+		case KF64, KF32:
 			f.SetFloat(5.5)
 		case KStr:
 			f.SetString("old")
@@ -404,7 +404,7 @@ func (sc *StructCase) apply(v reflect.Value, present bool) {
 			f.SetInt(int64(in.(uint64)))
 		case KUint16:
 			f.SetUint(in.(uint64))
-		case KF64:
+		case KF64, KF32:
 			f.SetFloat(in.(float64))
 		case KStr, KVStr:
 			f.SetString(in.(string))
